@@ -44,7 +44,8 @@ func init() {
 		ID: "C17",
 		Explanation: "Structural necessary conditions of 'pools stay within bounds; a session is safe to share and always closes': R1 the pool's connection list and state flags are only touched under pool.mu (writes under the write lock); R2 a single filler: filling is set in the same write-locked section that re-checks closed/filling/fill count, every exit of the fill work reaches fillingStopped, and connectMany waits for every dial it started; " +
 			"R3 only connect grows the pool, under the write lock after the closed check, and a late connection of a closed pool is closed; R4 no method calls, while holding a mutex of its receiver, a method that locks the same mutex or closes a pool-owned connection (self-deadlock through the error handler); R5 Session.Close test-and-sets isClosing in one critical section, stops every component on every path and then sets isClosed, and the query entry points check Closed() first; R6 stop handshakes pair (=C06.R8/R9); R7 frozen guarded-field tables of Session, query metrics, debouncers and caches." +
-			" R2 also: the number of connections to create is computed from the pool's fields inside the write-locked section that sets filling; R9 a send on a service's stop channel is blocking, or non-blocking into a buffered channel, so the signal cannot be lost.",
+			" R2 also: the number of connections to create is computed from the pool's fields inside the write-locked section that sets filling; R9 a send on a service's stop channel is blocking, or non-blocking into a buffered channel, so the signal cannot be lost." +
+			" R10 (go directive < 1.22) closures started with go / defer in a loop do not capture the loop variable; R11 no blocking send to a service goroutine while holding the mutex that goroutine takes; R12 the control connection being replaced is closed on every path on which it exists.",
 		NotDecided: "absence of data races in general (only the frozen guarded-field tables); bounded goroutine exit time; the exact number of connections under every interleaving of fills and failures.",
 		Rules: []*Rule{
 			{ID: "C17.R1", Floor: 25, Doc: "hostConnPool.conns/closed/filling and policyConnPool.hostConnPools only under their mutex", Run: func(p *Program, r *Report) { checkGuardedFields(p, r, poolGuards) }},
